@@ -22,7 +22,7 @@ Lemma cmp_eq_r {A} dom (cmp : A -> A -> comparison) : cmp_ok dom cmp ->
 Proof.
   intros H a b c Ha Hb Hc E.
   pose proof (c_eq_l dom cmp H b c a Hb Hc Ha E) as E2.
-  rewrite (c_anti dom cmp H b a Hb Ha) in E2. rewrite (c_anti dom cmp H c a Hc Ha) in E2.
+  rewrite (c_anti dom cmp H a b Ha Hb) in E2. rewrite (c_anti dom cmp H a c Ha Hc) in E2.
   destruct (cmp a b), (cmp a c); simpl in E2; congruence.
 Qed.
 
@@ -202,10 +202,8 @@ Qed.
 Lemma lex_cmp_ok : forall cs ds, length ds = length cs -> cmp_ok (tuple_in cs) (lex_cmp cs ds).
 Proof.
   induction cs as [|c cs IH]; intros ds Hl.
-  - split; intros; destruct a; try destruct b; simpl in *; try contradiction; try reflexivity; try discriminate;
-      destruct ds; try discriminate; try reflexivity.
-    + destruct c; simpl in *; try contradiction. destruct ds; reflexivity.
-    + destruct c; simpl in *; try contradiction. destruct ds; simpl in *; discriminate.
+  - assert (E : forall a b, lex_cmp [] ds a b = Eq) by (intros a b; destruct a, b, ds; reflexivity).
+    split; intros; rewrite ?E in *; try reflexivity; try discriminate.
   - destruct ds as [|dn ds]; [discriminate|]. simpl in Hl. injection Hl as Hl.
     specialize (IH ds Hl). pose proof (key_cmp_ok c dn) as K.
     split.
